@@ -38,6 +38,44 @@ def alternation(pattern):
     return set(m.group(1).split("|")) if m else None
 
 
+def _alternations_by_content(prog, rep, fd, tabs, cls, qmod):
+    """TAB-9 without the per entity helper functions: every attribute alternation among the regular expressions of the query module
+    (module level tables included) is the attribute table of exactly one format, and each of the three formats has one in the
+    patterns the parser class can reach.  Decides less than the per function form: a correct list used for the wrong entity
+    is not seen."""
+    want = dict((fname, set(tabs[fname]["_rdf_map"]) - ({"value"} if fname == "Property" else set())) for fname in KEYS.values())
+    names_used = set(y.id for m in cls.methods.values() for h in private_closure(m) for y in ast.walk(h.node) if isinstance(y, ast.Name))
+    # module level names reachable from those (tables of compiled patterns)
+    grew = True
+    while grew:
+        grew = False
+        for n0 in list(names_used):
+            for v in qmod.assigns.get(n0, []):
+                for y in ast.walk(v):
+                    if isinstance(y, ast.Name) and y.id not in names_used:
+                        names_used.add(y.id)
+                        grew = True
+    alts = []
+    for node in ast.walk(qmod.tree):
+        if isinstance(node, ast.Call) and isinstance(node.func, ast.Attribute) and node.func.attr in ("compile", "findall", "finditer", "search", "match") \
+                and node.args:
+            v = fd.try_fold(node.args[0], qmod)
+            if isinstance(v, str) and alternation(v) and len(alternation(v)) >= 4:
+                alts.append((alternation(v), node))
+    rep.floor("TAB-9", len(alts), 3, "attribute alternations in the patterns of rdf.query_creator")
+    seen = set()
+    for alt, node in alts:
+        hit = [fname for fname, w in want.items() if w == alt]
+        if hit:
+            seen.add(hit[0])
+        rep.check(bool(hit), "TAB-9", "%s: alternation %s" % (cls.name, "|".join(sorted(alt))[:50]), "the attribute table of %s" % (hit[0] if hit else "?"),
+                  "the pattern accepts %s, which is the attribute table of no format (Document %s / Section %s / Property %s)"
+                  % (sorted(alt), sorted(want["Document"]), sorted(want["Section"]), sorted(want["Property"])),
+                  "%s:%d" % (qmod.path, node.lineno), witness="a query on a dropped attribute is silently ignored")
+    rep.check(seen == set(want), "TAB-9", "%s: every entity has its attribute pattern" % cls.name, str(sorted(seen)),
+              "no pattern carries the attribute table of %s" % sorted(set(want) - seen), qmod.path)
+
+
 def run(prog, rep):
     rep.decided = DECIDED
     rep.not_decided = NOT_DECIDED
@@ -53,6 +91,10 @@ def run(prog, rep):
                       "extra one yields a malformed triple pattern")
     for cname in ("QueryParser", "QueryParserFuzzy"):
         cls = prog.cls(cname)
+        if any(cls.lookup_method(m0) is None for m0 in ("_parse_doc", "_parse_sec", "_parse_prop")):
+            # the per entity helpers were merged / made table driven: the weaker, layout free form of the rule
+            _alternations_by_content(prog, rep, fd, tabs, cls, qmod)
+            continue
         for meth, fname in (("_parse_doc", "Document"), ("_parse_sec", "Section"), ("_parse_prop", "Property")):
             f = cls.lookup_method(meth)
             if f is None:
@@ -147,11 +189,16 @@ def run(prog, rep):
                and isinstance(n.ops[0], (ast.In, ast.NotIn)) and "q_dict" in unparse(n.comparators[0]))
     rep.check(read == set(KEYS), "KEY-1", "_prepare_query reads Doc/Sec/Prop", str(sorted(read)), "_prepare_query tests keys %s" % sorted(read), pq.where)
     ff = prog.cls("FuzzyFinder")
-    for m in ("_generate_parameters_pairs", "_generate_parameters_pairs_fuzzy"):
-        f = ff.lookup_method(m)
-        rep.saw_function(f)
-        rep.check("QueryCreator.possible_q_dict_keys" in unparse(f.node), "KEY-1", "%s iterates the shared key list" % m, "ok",
-                  "%s does not iterate QueryCreator.possible_q_dict_keys" % m, f.where)
+    # the two pair generators (match mode, fuzzy mode) - whatever they are called - go through the shared key list
+    users = [m0 for _, m0 in sorted(ff.methods.items()) if any(isinstance(y, ast.Attribute) and y.attr == "possible_q_dict_keys" for y in ast.walk(m0.node))]
+    for m0 in users:
+        rep.saw_function(m0)
+    literal_keys = [m0 for _, m0 in sorted(ff.methods.items())
+                    if any(isinstance(y, (ast.Tuple, ast.List)) and [getattr(e0, "value", None) for e0 in y.elts] == ["Doc", "Sec", "Prop"]
+                           for y in ast.walk(m0.node))]
+    rep.check(len(users) >= 2 and not literal_keys, "KEY-1", "the pair generators iterate the shared key list", "%d methods use possible_q_dict_keys" % len(users),
+              "the fuzzy finder no longer builds its parameter pairs from QueryCreator.possible_q_dict_keys in both modes (%s)"
+              % [m0.name for m0 in users], ff.module.path, witness="a key added to the query builder is ignored by the finder")
 
     # --------------------------------------------------------------- STATE-1
     rep.rule("STATE-1", "no class of rdf.query_creator / rdf.fuzzy_finder keeps a mutable container at class level other than read-only "
@@ -225,21 +272,35 @@ def run(prog, rep):
                       "_output_query_results appends only when triples is non-empty")
     dfs = ff.lookup_method("_subsets_util_dfs")
     rep.saw_function(dfs)
-    rec = [c for c in calls_in(dfs.node) if call_name(c) == "self._subsets_util_dfs"]
+    rec = [c for c in calls_in(dfs.node) if call_name(c).split(".")[-1] == "_subsets_util_dfs"]
     dx = Expander(dfs, only_locations=True)
-    rargs = [dx.text(a) for a in rec[0].args] if rec else None
-    ok = len(rec) == 1 and rargs == ["i + 1", "path + [attrs[i]]", "res", "attrs"]
-    rep.check(ok, "DFS-1", "DFS recursion", "(i + 1, path + [attrs[i]], res, attrs)", "the DFS recursion is %s" % (rargs,),
-              dfs.where, witness="combinations are missing or repeated")
+    off = 1 if dfs.has_self else 0            # a method, a static method or a module function
+    p_index, p_path, p_res, p_attrs = dfs.params[off:off + 4] if len(dfs.params) >= off + 4 else ("index", "path", "res", "attrs")
     loops = [n for n in walk_no_nested(dfs.node) if isinstance(n, ast.For)]
-    rep.check(len(loops) == 1 and unparse(loops[0].iter) == "range(index, len(attrs))", "DFS-1", "DFS loop range", "range(index, len(attrs))",
+    pos = elem = None
+    if len(loops) == 1:
+        lp0 = loops[0]
+        it = unparse(lp0.iter)
+        if isinstance(lp0.target, ast.Name) and it == "range(%s, len(%s))" % (p_index, p_attrs):
+            pos, elem = lp0.target.id, "%s[%s]" % (p_attrs, lp0.target.id)
+        elif isinstance(lp0.target, ast.Tuple) and len(lp0.target.elts) == 2 and all(isinstance(e0, ast.Name) for e0 in lp0.target.elts) \
+                and it in ("enumerate(islice(%s, %s, None), start=%s)" % (p_attrs, p_index, p_index),
+                           "enumerate(islice(%s, %s, None), %s)" % (p_attrs, p_index, p_index),
+                           "enumerate(itertools.islice(%s, %s, None), start=%s)" % (p_attrs, p_index, p_index),
+                           "enumerate(%s[%s:], start=%s)" % (p_attrs, p_index, p_index), "enumerate(%s[%s:], %s)" % (p_attrs, p_index, p_index)):
+            pos, elem = lp0.target.elts[0].id, lp0.target.elts[1].id
+    rep.check(pos is not None, "DFS-1", "DFS loop range", "every position from index to the end, with its pair",
               "the DFS loop iterates %s" % [unparse(n.iter) for n in loops], dfs.where)
+    rargs = [dx.text(a0) for a0 in rec[0].args] if rec else None
+    ok = len(rec) == 1 and pos is not None and rargs == ["%s + 1" % pos, "%s + [%s]" % (p_path, elem), p_res, p_attrs]
+    rep.check(ok, "DFS-1", "DFS recursion", "(position + 1, path + [pair at position], res, attrs)", "the DFS recursion is %s" % (rargs,),
+              dfs.where, witness="combinations are missing or repeated")
     early = [y for lp0 in loops for y in ast.walk(lp0) if isinstance(y, (ast.Break, ast.Return))]
     rep.check(not early, "DFS-1", "the DFS loop tries every remaining pair", "no break / return in the loop",
               "the DFS loop stops early (%s): combinations that continue with a later pair are never generated"
               % [type(y).__name__.lower() for y in early], where(dfs, early[0]) if early else dfs.where,
               witness="FIND sec(name, type) HAVING stim, stimulus: the combination name=stim & type=stimulus is not searched")
-    rep.check("if path:" in unparse(dfs.node) and "res.append(path)" in unparse(dfs.node), "DFS-1", "every non-empty path is recorded", "ok",
+    rep.check("if %s:" % p_path in unparse(dfs.node) and "%s.append(%s)" % (p_res, p_path) in unparse(dfs.node), "DFS-1", "every non-empty path is recorded", "ok",
               "non-empty combinations are not all recorded", dfs.where)
     cd = ff.lookup_method("_check_duplicate_attrs")
     cmps = [n for n in walk_no_nested(cd.node) if isinstance(n, ast.Compare)]
